@@ -8,7 +8,7 @@ import manifest_meta as M
 ALL = ["C%02d" % i for i in range(1, 21)]
 checks = []
 for pid in ALL:
-    if pid not in P.PROPS or pid not in M.META:
+    if pid not in P.PROPS or pid not in M.META or not os.path.exists(os.path.join(os.path.dirname(os.path.abspath(__file__)), "..", "coq", "theories", "props", "P_%s.v" % pid)):
         continue
     m = M.META[pid]
     checks.append({
@@ -23,7 +23,7 @@ for pid in ALL:
         "technique": m["technique"],
     })
 na = [{"property_id": pid, "reason": M.NOT_YET.get(pid, "check not built yet in this round; see DESIGN.md section 10")}
-      for pid in ALL if pid not in P.PROPS or pid not in M.META]
+      for pid in ALL if pid not in [c["property_id"] for c in checks]]
 man = {
     "version": 1,
     "setup_cmd": "./setup.sh",
